@@ -86,7 +86,15 @@ def opt(f, x):
 
 
 # ---------------------------------------------------------------- Plutus data (canonical raw form)
-def data_prim(d):
+import hashlib as _hashlib, json as _json, random as _random
+VAR = _random.Random(0)     # per-case choice among EQUIVALENT ways a user can hand over the same content (reseeded per case)
+
+
+def reseed(case):
+    VAR.seed(_hashlib.sha256(_json.dumps(case, sort_keys=True).encode()).hexdigest())
+
+
+def data_prim(d, key=False, root=False):
     k = d[0]
     if k == 'constr':
         i, fs = d[1], [data_prim(f) for f in d[2]]
@@ -99,7 +107,7 @@ def data_prim(d):
     if k == 'map':
         out = {}
         for a, b in d[1]:
-            out[data_prim(a)] = data_prim(b)
+            out[data_prim(a, key=True)] = data_prim(b)
         return out
     if k == 'list':
         xs = [data_prim(f) for f in d[1]]
@@ -108,12 +116,19 @@ def data_prim(d):
         return d[1]
     if k == 'bytes':
         b = hb(d[1])
-        return b if len(b) <= 64 else ByteString(b)
+        if len(b) > 64:
+            return ByteString(b)
+        # a ByteString of at most 64 bytes must be emitted exactly like plain bytes (definite length)
+        return ByteString(b) if (not key and not root and VAR.random() < 0.4) else b   # RawPlutusData rejects a ByteString root
     raise ValueError(k)
 
 
 def mk_data(d):
-    return RawPlutusData(data_prim(d))
+    # an integer / short byte string / map root may also be handed over as the bare Python value (Datum allows it)
+    if d[0] in ('int', 'map') or (d[0] == 'bytes' and len(d[1]) <= 128):
+        if VAR.random() < 0.5:
+            return data_prim(d, root=True)
+    return RawPlutusData(data_prim(d, root=True))
 
 
 # ---------------------------------------------------------------- scripts
@@ -506,6 +521,7 @@ def handler(case, payload):
     global WITS_ROUTE
     WITS_ROUTE = payload.get('wits_route', 'ctor')
     build = BUILD[case['kind']]                     # unknown kind = driver error, not a result
+    reseed(case)
     try:
         obj = build(case['content'])
         return {'cbor': obj.to_cbor().hex()}
